@@ -86,7 +86,7 @@ def stepC14 (H : Hier) (line : String) : Hier × Option String :=
     match parseStmt rest with
     | some s =>
       (H, some (showPy (modelStmt genView H s) ++ " " ++
-        ",".intercalate ((cpyStmt genView H s).map showOutcome) ++ " " ++ showRow (s.row genView)))
+        ",".intercalate ((cpyStmt genView H s).map showOutcome) ++ " " ++ showRow (s.row genView H)))
     | none => (H, some "bad-op")
   | ["wf"] => (H, some s!"{WF H} {AllVal H}")
   | ["rowcheck"] => (H, some s!"{rowCheck.1} {rowCheck.2}")
